@@ -93,6 +93,16 @@ def selftest(only=None, jobs=16, checks=None):
                     res["problems"].append({"variant": vid, "check": pid, "problem": "cannot decide (exit %d) on a neutral variant" % rc, "lines": lines, "severity": "weakness"})
             else:
                 if rc != 1:
+                    # a seed recorded as outside what the check decides (meta.json "own_check_expected": "cannot-decide"): exit 2
+                    # is the expected answer, silence (exit 0) is still a problem
+                    exp = None
+                    try:
+                        exp = json.load(open(os.path.join(V.VERIF, "seeded", vid, "meta.json"))).get("own_check_expected")
+                    except (OSError, ValueError):
+                        pass
+                    if exp == "cannot-decide" and rc == 2:
+                        res.setdefault("by_design_undecided", []).append(vid)
+                        continue
                     res["problems"].append({"variant": vid, "check": pid, "problem": "breaking variant not reported (exit %d)" % rc, "lines": lines})
     finally:
         shutil.rmtree(tmp, ignore_errors=True)
